@@ -34,7 +34,7 @@ func propC16(c *Ctx) {
 	v2 := c.Rule("V2", "K7 exact-guard site tables", "size moves with the chunks", 10)
 	if fn := c.Fn(v2, bv+"TrimFront"); fn != nil {
 		cnt := "phi{$1 | (loop - builtin:len($0.views[0]))}"
-		loop := []string{"(0 < builtin:len($0.views))", "(0 < " + cnt + ")"}
+		loop := []string{"!(0 == builtin:len($0.views))", "!(" + cnt + " < 1)"}
 		part := append(append([]string{}, loop...), "("+cnt+" < builtin:len($0.views[0]))")
 		whole := append(append([]string{}, loop...), "!("+cnt+" < builtin:len($0.views[0]))")
 		c.CheckSites(v2, fn, []SiteSpec{
